@@ -73,7 +73,7 @@ def run(chk: lib.PropertyCheck, no_model=False) -> int:
     if not no_model:
         try:
             t = time.time()
-            lib.ensure_static_build()
+            lib.ensure_static_build(chk.static_targets)
             timing['static_build_s'] = round(time.time() - t, 1)
             t = time.time()
             chk.translate()
